@@ -183,6 +183,11 @@ def _charclass(name):
             it.store.assume_ge0(v.length() - 1)
             if name in ('isdigit', 'isdecimal'):
                 it.binds[('digits', it._seq_key(v))] = True
+                # integers already parsed from this very text are non-negative
+                k = it._seq_key(v)
+                for sym, o in list(it.origin.items()):
+                    if o[0] == 'int' and isinstance(o[1], SeqV) and it._seq_key(o[1]) == k and o[2] == 10:
+                        it.store.assume_ge0(Lin.sym(sym))
         return ConstV(r)
     return f
 
